@@ -142,6 +142,7 @@ pub mod fs {
                 old(w).healthy && (self@.mode.write || self@.mode.append) ==> r is Ok,
         { unimplemented!() }
     }
+    // @FLAVOUR !tokio
     impl File {
         /// AsyncRead::poll_read of an async-std file (after R21): Pending reads nothing
         #[verifier::external_body]
@@ -159,6 +160,30 @@ pub mod fs {
                 }
         { unimplemented!() }
     }
+    // @ENDFLAVOUR
+    // @FLAVOUR tokio
+    impl File {
+        /// tokio AsyncRead::poll_read (after R21): appends what it reads to the filled part of the
+        /// ReadBuf; Pending / Err read nothing
+        #[verifier::external_body]
+        pub fn poll_read(&mut self, cx: &mut crate::shims::std::task::Context<'_>, buf: &mut crate::shims::tokio::io::ReadBuf<'_>) -> (r: crate::shims::std::task::Poll<io::Result<()>>)
+            ensures
+                final(buf)@.cap == old(buf)@.cap,
+                final(self)@.path == old(self)@.path, final(self)@.mode == old(self)@.mode, final(self)@.reliable == old(self)@.reliable,
+                final(self)@.content == old(self)@.content,
+                match r {
+                    crate::shims::std::task::Poll::Ready(Ok(_)) => {
+                        let n = final(self)@.pos - old(self)@.pos;
+                        &&& 0 <= n <= old(buf)@.cap - old(buf)@.filled.len()
+                        &&& final(self)@.pos <= old(self)@.content.len()
+                        &&& final(buf)@.filled == old(buf)@.filled + old(self)@.content.subrange(old(self)@.pos, final(self)@.pos)
+                        &&& (n == 0 && old(buf)@.cap > old(buf)@.filled.len() ==> old(self)@.pos == old(self)@.content.len())
+                    },
+                    _ => final(self)@.pos == old(self)@.pos && final(buf)@.filled == old(buf)@.filled,
+                }
+        { unimplemented!() }
+    }
+    // @ENDFLAVOUR
     impl File {
         /// creat(2): creates or truncates.  The file is empty afterwards; nothing else changes.
         #[verifier::external_body]
